@@ -22,7 +22,8 @@ import signal
 import time
 
 _STATE = {'plan': None, 'counter': 0, 'procs': [], 'victim': False,
-          'mid_calls': 0, 'patched': []}
+          'mid_calls': 0, 'patched': [], 'victim_process': False,
+          'in_worker': False}
 
 
 class InjectedFault(RuntimeError):
@@ -71,6 +72,8 @@ class InjectProcess(_real_mp.Process):
         fault = plan.get('fault')
         is_victim = bool(fault) and fault['worker'] == idx
         _STATE['victim'] = is_victim
+        _STATE['victim_process'] = is_victim
+        _STATE['in_worker'] = True
         _STATE['mid_calls'] = 0
         # ordering: wait for our turn
         order = plan.get('order')
@@ -132,6 +135,19 @@ def _wrap_mid(func, plan):
     return wrapper
 
 
+def _wrap_delay(func, plan, seconds, who):
+    def wrapper(*args, **kwargs):
+        in_worker = _STATE.get('in_worker', False)
+        if in_worker and (who == 'all' or not _STATE['victim_process']):
+            _log(plan, ev='delay', at=getattr(func, '__name__', '?'),
+                 seconds=seconds)
+            time.sleep(seconds)
+        return func(*args, **kwargs)
+    wrapper.__wrapped__ = func
+    wrapper.__name__ = getattr(func, '__name__', 'wrapped')
+    return wrapper
+
+
 def install(plan, module_names, mid_target=None):
     """
     plan: dict with log_dir and optional order / delays / fault.
@@ -156,6 +172,13 @@ def install(plan, module_names, mid_target=None):
         orig = getattr(mod, mid_target[1])
         _STATE['patched'].append((mod, mid_target[1], orig))
         setattr(mod, mid_target[1], _wrap_mid(orig, plan))
+    # injected delays at existing call boundaries inside the workers:
+    # plan['delay_points'] = [[module, attribute, seconds, 'non-victim'|'all']]
+    for (mname, attr, seconds, who) in plan.get('delay_points', []):
+        mod = importlib.import_module(mname)
+        orig = getattr(mod, attr)
+        _STATE['patched'].append((mod, attr, orig))
+        setattr(mod, attr, _wrap_delay(orig, plan, seconds, who))
 
 
 def uninstall():
